@@ -174,6 +174,31 @@ func recursivePackages(thorough bool) []*pkgSpec {
 	p.addTyped("rectrue", "nested-generic", typeSpec{name: "R10", decl: "type R10 struct {\n\ta Wrap[int]\n\tb string\n}", tcs: all, kinds: []string{"nested-generic-struct"}}, all, recTrue)
 	out = append(out, p)
 
+	// recursive=true and the visibility of the nested struct's fields: a plain struct of the
+	// working package with (a) exported, (b) mixed, (c) unexported fields, each holding a slice,
+	// a map and a pointer, reached directly, through a pointer and through a slice
+	for _, vis := range []struct{ label, s, m, p string }{
+		{"exported", "S", "M", "P"},
+		{"mixed", "S", "m", "p"},
+		{"unexported", "s", "m", "p"},
+	} {
+		p = &pkgSpec{Name: "rectrue/nested-" + vis.label}
+		p.addType("T", fmt.Sprintf("type T struct {\n\t%s []int\n\t%s map[string]int\n\t%s *int\n}", vis.s, vis.m, vis.p))
+		// no GoMap instance in ord and hash
+		p.addType("H", fmt.Sprintf("type H struct {\n\t%s []int\n\t%s *int\n}", vis.s, vis.p))
+		vmark := func(t *target) {
+			recTrue(t)
+			t.Counts = append(t.Counts, "nested-field-visibility/"+vis.label)
+		}
+		kinds := []string{"nested-struct-with-storage"}
+		p.addTyped("rectrue", "nested-"+vis.label+"/direct+pointer+slice", typeSpec{name: "VT", decl: "type VT struct {\n\ta T\n\tb *T\n\tc []T\n}", tcs: only(Eq, Monoid, Clone, Show), kinds: kinds}, all, vmark)
+		p.addTyped("rectrue", "nested-"+vis.label+"/direct", typeSpec{name: "VD", decl: "type VD struct {\n\tn int\n\ta T\n}", tcs: only(Eq, Clone), kinds: kinds}, all, vmark)
+		p.addTyped("rectrue", "nested-"+vis.label+"/pointer", typeSpec{name: "VP", decl: "type VP struct {\n\ta *T\n}", tcs: only(Clone), kinds: kinds}, all, vmark)
+		p.addTyped("rectrue", "nested-"+vis.label+"/slice", typeSpec{name: "VL", decl: "type VL struct {\n\ta []T\n\tn int\n}", tcs: only(Clone), kinds: kinds}, all, vmark)
+		p.addTyped("rectrue", "nested-"+vis.label+"/no-map:direct+pointer+slice", typeSpec{name: "VH", decl: "type VH struct {\n\ta H\n\tb *H\n\tc []H\n}", tcs: only(Ord, Hashable), kinds: kinds}, all, vmark)
+		out = append(out, p)
+	}
+
 	// the same nested types without recursive=true: only Clone has an instance for them
 	// (clone.Given accepts any type)
 	p = &pkgSpec{Name: "norec/clone"}
